@@ -383,6 +383,12 @@ def check_function_algebra(ctx):
         fn = m.func(q)
         ctx.analysed(q)
         ctor = function_ctor(ctx, fn)
+        # every other way out delegates to the diagram-level operation (n-ary calls, sums) or refuses: a shortcut that hands an operand back skips the closure
+        # in which results are put into the tuple-or-single-value form
+        others_ = [r for r in own_nodes(fn) if isinstance(r, ast.Return) and r.value is not ctor]
+        stray = [ast.unparse(r.value)[:60] for r in others_ if not (isinstance(r.value, ast.Call) and ast.unparse(r.value.func) in ("monoidal.Diagram.then", "monoidal.Diagram.tensor"))]
+        ctx.ob("R19.1", q + ":exits", not stray, found=stray or "one Function(...) construction; the other returns delegate to monoidal.Diagram.%s" % meth, required="no return hands back an operand or anything "
+               "else than the checked Function(dom, cod, closure) (identities included: the closure is where results are normalised and arities checked)", mod=CART, node=fn, sig=meth + "-exits", trivial=True)
         local = {s.targets[0].id: s.value for s in fn.body if isinstance(s, ast.Assign) and len(s.targets) == 1 and isinstance(s.targets[0], ast.Name)}
         for s in fn.body:
             if isinstance(s, ast.Assign) and isinstance(s.targets[0], ast.Tuple) and isinstance(s.value, ast.Tuple):
@@ -476,10 +482,16 @@ def check_call(ctx):
     ctx.analysed(q)
     self_, vals = fn.args.args[0].arg, fn.args.vararg.arg if fn.args.vararg else None
     ctx.need(vals is not None, "Diagram.__call__ takes no *values")
-    ret = [s for s in fn.body if isinstance(s, ast.Return)]
-    ctx.need(len(ret) == 1, "Diagram.__call__ has not exactly one return")
-    shape.match(ctx, "R19.2", q, ret[0].value, "PythonFunctor(ob=lambda t: PRO(len(t)), ar=lambda f: Function(len(f.dom), len(f.cod), f.function))(self)(*values)", {self_: "self", vals: "values"},
-                body=fn.body, mod=CART, node=ret[0], sig="diagram-call", required="the functor into Functions that sends a box to its own function with its own arities, applied to the diagram, called on the values")
+    ret = [s for s in own_nodes(fn) if isinstance(s, ast.Return)]
+    ctx.need(len(ret) >= 1, "Diagram.__call__ returns nothing")
+    for k, r in enumerate(sorted(ret, key=lambda r: r.lineno)):
+        if r.value is None or not any(isinstance(c, ast.Call) and ast.unparse(c.func) == "PythonFunctor" for c in ast.walk(shape.inline(r.value, fn.body))):
+            ctx.ob("R19.2", q + ("" if len(ret) == 1 else "@%d" % k), False, found="`return %s` does not apply the functor" % (ast.unparse(r.value)[:60] if r.value is not None else ""),
+                   required="every call goes through the functor into Functions (the only place where the number of inputs is checked)", mod=CART, node=r, sig="diagram-call-bypass")
+            continue
+        shape.match(ctx, "R19.2", q + ("" if len(ret) == 1 else "@%d" % k), r.value, "PythonFunctor(ob=lambda t: PRO(len(t)), ar=lambda f: Function(len(f.dom), len(f.cod), f.function))(self)(*values)",
+                    {self_: "self", vals: "values"}, body=fn.body, mod=CART, node=r, sig="diagram-call",
+                    required="every call goes through the functor into Functions (the only place where the number of inputs is checked), applied to the diagram, called on the values")
     init = m.func(CART + ".PythonFunctor.__init__")
     ctx.analysed(CART + ".PythonFunctor.__init__")
     sup = next((c for c in ast.walk(init) if isinstance(c, ast.Call) and ast.unparse(c.func) == "super().__init__"), None)
@@ -495,8 +507,10 @@ def check_call(ctx):
     init = m.func(CART + ".Box.__init__")
     stores = [s for s in ast.walk(init) if isinstance(s, ast.Assign) and ast.unparse(s.targets[0]) == "self._function"]
     prop = m.func(CART + ".Box.function")
-    ok = len(stores) == 1 and ast.unparse(stores[0].value) == "function" and "return self._function" in ast.unparse(prop)
-    ctx.ob("R19.2", CART + ".Box:function", ok, found=[ast.unparse(s) for s in stores], required="the function given to the constructor is the one `function` returns", mod=CART, node=init, sig="box-function-store")
+    guard = next((s for s in ast.walk(init) if isinstance(s, ast.If) and stores and any(x is stores[0] for x in ast.walk(s))), None)
+    ok = len(stores) == 1 and ast.unparse(stores[0].value) == "function" and "return self._function" in ast.unparse(prop) and \
+        (guard is None or shape.key(guard.test) == shape.key(shape.parse("function is not None")))
+    ctx.ob("R19.2", CART + ".Box:function", ok, found=[ast.unparse(s) for s in stores], required="the function given to the constructor (any callable that is not None: a callable may be falsy, e.g. a diagram without boxes) is the one `function` returns", mod=CART, node=init, sig="box-function-store")
 
 
 # -- R19.3: reference evaluation of the structural diagrams on wire labels ------------------------------------------------
@@ -815,7 +829,7 @@ def check(ctx):
     bad = [o for o in sub.obs if not o.ok and o.rule in ("R04.1", "R04.2")]
     ctx.ob("R19.4", "C04:dependency", not bad and not sub.broken, found=["%s %s" % (o.rule, o.construct) for o in bad][:4] or "R04.1 / R04.2 discharged",
            required="monoidal.Functor.__call__ applies id(left) @ F(box) @ id(right) layer by layer (C04)", mod="discopy.monoidal", node=None, sig="dep-C04:" + ",".join(sorted({o.rule for o in bad})))
-    ctx.floor("R19.1", 14)
+    ctx.floor("R19.1", 17)
     ctx.floor("R19.2", 6)
     ctx.floor("R19.3", 6)
     ctx.not_decided += ["user functions returning a tuple as a single value", "widths above the bound of R19.3"]
